@@ -77,69 +77,14 @@ func equalStrings(a, b []string) bool {
 	return strings.Join(a, "\x00") == strings.Join(b, "\x00") && len(a) == len(b)
 }
 
-// execBuilder drives a real Builder through calls and records what it did.
+// execBuilder drives a fresh Builder through calls and records what it did.
 func (c *collector) execBuilder(origin string, pre2 bool, calls []string, gc *genCase) {
 	version := pdf.V2_0
 	if pre2 {
 		version = pdf.V1_7
 	}
 	b := builder.New(content.Page, nil, version)
-	r := &record{Kind: "builder", Origin: origin, Pre2: pre2, pair: pairSeq.Add(1)}
-	for i, call := range calls {
-		apply(b, call, i)
-		r.Calls = append(r.Calls, call)
-		if b.Err != nil {
-			r.ErrAt = i + 1
-			r.errText = b.Err.Error()
-			break // the error is sticky: later calls do nothing
-		}
-	}
-	c.ctx.Ev.Eval(1)
-	c.ctx.Ev.Distinct("b:" + strings.Join(r.Calls, "."))
-	if r.ErrAt == 0 {
-		r.CloseOK = b.Close() == nil
-		closing := b.State.ClosingOperators()
-		r.Closing = opNames(closing)
-		ops, herr := b.Harvest()
-		if herr != nil {
-			r.errText = "Harvest: " + herr.Error()
-			r.ApplyErr = -1
-		} else {
-			rc, _ := ops.RawBytes()
-			data, _ := io.ReadAll(rc)
-			rc.Close()
-			// re-read the stream that was written
-			it := content.NewScanner(func() (io.ReadCloser, error) { return io.NopCloser(bytes.NewReader(data)), nil }).NewIter()
-			st := content.NewState(content.Page, &content.Resources{})
-			st.Version = version
-			n := 0
-			for name, args := range it.All() {
-				n++
-				r.Reread = append(r.Reread, string(name))
-				if r.ApplyErr == 0 {
-					if err := st.ApplyOperator(name, args); err != nil {
-						r.ApplyErr = n
-						r.errText = err.Error()
-					}
-				}
-			}
-			for _, name := range closing {
-				n++
-				if r.ApplyErr == 0 {
-					if err := st.ApplyOperator(name, nil); err != nil {
-						r.ApplyErr = n
-						r.errText = err.Error()
-					}
-				}
-			}
-			if r.ApplyErr == 0 {
-				if err := st.CanClose(); err != nil {
-					r.ApplyErr = n + 1
-					r.errText = err.Error()
-				}
-			}
-		}
-	}
+	r := c.observe(b, version, origin, pre2, calls, false)
 	if gc != nil {
 		// exact conformance with the code-shaped model; the property itself
 		// only speaks about accepted call sequences
@@ -152,8 +97,125 @@ func (c *collector) execBuilder(origin string, pre2 bool, calls []string, gc *ge
 			r.suspect = !(r.CloseOK == gc.CanClose && equalStrings(r.Closing, gc.Closing) && r.ApplyErr == 0 && len(r.Reread) == len(calls))
 		}
 	}
+	c.add(r, "")
+}
+
+// program: one Builder used for several streams.  mode "reset": Reset
+// between the streams, each harvested; mode "build": every stream through
+// Builder.Build (which resets, runs the calls, and insists on Close).
+type program struct {
+	pre2    bool
+	mode    string
+	streams [][]string
+}
+
+// execProgram runs the streams of a program on ONE Builder; every stream is
+// recorded (and judged) on its own, with the version of the Builder.
+func (c *collector) execProgram(origin string, p program) {
+	version := pdf.V2_0
+	if p.pre2 {
+		version = pdf.V1_7
+	}
+	b := builder.New(content.Page, nil, version)
+	for k, calls := range p.streams {
+		if k > 0 || p.mode == "build" {
+			if p.mode == "reset" || b.Err != nil {
+				b.Reset() // Build itself does nothing after an error
+			}
+		}
+		r := c.observe(b, version, origin+"/"+p.mode, p.pre2, calls, p.mode == "build")
+		pp := p
+		r.prog, r.stream = &pp, k
+		c.add(r, "")
+	}
+}
+
+// observe performs calls on b and records what the Builder did: the call
+// after which Err was set, Close, ClosingOperators, the harvested stream
+// re-read from its bytes, and that stream fed to a State of the same version.
+func (c *collector) observe(b *builder.Builder, version pdf.Version, origin string, pre2 bool, calls []string, useBuild bool) *record {
+	r := &record{Kind: "builder", Origin: origin, Pre2: pre2, pair: pairSeq.Add(1)}
+	run := func(b *builder.Builder) error {
+		for i, call := range calls {
+			apply(b, call, i)
+			r.Calls = append(r.Calls, call)
+			if b.Err != nil {
+				r.ErrAt = i + 1
+				r.errText = b.Err.Error()
+				break // the error is sticky: later calls do nothing
+			}
+		}
+		return nil
+	}
+	var ops *content.Operators
+	var closing []content.OpName
+	if useBuild {
+		ops = b.Build(run)
+		if ops == nil && r.ErrAt == 0 {
+			// all calls accepted, but Build refused the stream (not balanced)
+			r.ErrAt = len(calls) + 1
+			if b.Err != nil {
+				r.errText = b.Err.Error()
+			}
+		}
+		if ops != nil {
+			r.CloseOK = true
+			closing = b.State.ClosingOperators()
+		}
+	} else {
+		run(b)
+		if r.ErrAt == 0 {
+			r.CloseOK = b.Close() == nil
+			closing = b.State.ClosingOperators()
+			var herr error
+			ops, herr = b.Harvest()
+			if herr != nil {
+				r.errText = "Harvest: " + herr.Error()
+				r.ApplyErr = -1
+				ops = nil
+			}
+		}
+	}
+	c.ctx.Ev.Eval(1)
+	c.ctx.Ev.Distinct("b:" + strings.Join(r.Calls, "."))
+	if r.ErrAt == 0 && ops != nil {
+		r.Closing = opNames(closing)
+		rc, _ := ops.RawBytes()
+		data, _ := io.ReadAll(rc)
+		rc.Close()
+		// re-read the stream that was written
+		it := content.NewScanner(func() (io.ReadCloser, error) { return io.NopCloser(bytes.NewReader(data)), nil }).NewIter()
+		st := content.NewState(content.Page, &content.Resources{})
+		st.Version = version
+		n := 0
+		for name, args := range it.All() {
+			n++
+			r.Reread = append(r.Reread, string(name))
+			if r.ApplyErr == 0 {
+				if err := st.ApplyOperator(name, args); err != nil {
+					r.ApplyErr = n
+					r.errText = err.Error()
+				}
+			}
+		}
+		for _, name := range closing {
+			n++
+			if r.ApplyErr == 0 {
+				if err := st.ApplyOperator(name, nil); err != nil {
+					r.ApplyErr = n
+					r.errText = err.Error()
+				}
+			}
+		}
+		if r.ApplyErr == 0 {
+			if err := st.CanClose(); err != nil {
+				r.ApplyErr = n + 1
+				r.errText = err.Error()
+			}
+		}
+	}
 	if r.ErrAt == 0 {
 		c.ctx.Ev.Add("builder_runs_accepted", 1)
 	}
-	c.add(r, "")
+	return r
 }
